@@ -91,7 +91,9 @@ func ruleOrderStart(c *Ctx) {
 		at, ok := edgeAtom(info, e)
 		return ok && at.Kind == "nil" && at.Op == token.NEQ && isErrorType(info.TypeOf(at.X))
 	}
-	seen := g.ReachAfter(startN, func(x *Node) bool { return x == dn }, func(e *Edge) bool { return errOfStart(e) && e.From != dn && g.Dominates(startN, e.From) && firstCondAfter(g, startN, e.From) })
+	seen := g.ReachAfter(startN, func(x *Node) bool { return x == dn }, func(e *Edge) bool {
+		return errOfStart(e) && e.From != dn && g.Dominates(startN, e.From) && firstCondAfter(g, startN, e.From)
+	})
 	if _, bad := seen[g.Exit]; bad {
 		c.R.Violate("R-ORDER/O3", p.Pos(dn.Ast), f.Name, "defer registered right after the launch", "there is a return between a successful runner.Start and the registration of the cleanup defer: a failure there leaves the process running", p.PathTo(seen, g.Exit))
 	} else if !g.Dominates(startN, dn) {
